@@ -1,21 +1,70 @@
 from common import Rng
 
 CONFIG = dict(
-    claimed=False,
-    na_reason="theorems in progress",
-    level_text="",
-    level_note="",
-    lean_modules=["Rbgp.Fib.Codec"],
-    theorems=[],
+    claimed=True,
+    level_text="Kernel-checked Lean theorems over ALL histories (route insert/replace/remove, peer drop, GR stale marking, "
+               "stale purge, soft reset IN with next-hop-rewriting import policy, next-hop reachability reports; several peers, "
+               "add-path ids, local/kernel sources, VRFs) of a model of table_manager.rs' FIB/NHT side: the replayed main-table "
+               "FIB entry of every prefix equals the next hops of the best path and the paths tied with it before the "
+               "router-id step, the same in every VRF whose import targets match, outstanding registrations = peer-learned "
+               "paths using the address (never unregistered below zero), unreachable next hops never in a FIB entry, the "
+               "service loop's watched counts refine the fold; master theorem: the C20 reference checker accepts every model "
+               "run. The model is tied to the code by running the real TableManager (kernel handle observed at the channel "
+               "through the cfg-guarded kernel hook) and the real run_service_loop on the same generated histories and "
+               "diffing requests and RIB contents step by step, with the reference checker as oracle on the real observations.",
+    level_note="Trusted: Lean kernel; axioms propext/Classical.choice/Quot.sound; the hand-written model Rbgp/Fib/Model.lean "
+               "(checked only by the correspondence stream); harness glue (case decoding, attribute construction, snapshot "
+               "through Table::destinations/lookup_nexthop, canonical ordering of requests between different keys). Modelled, "
+               "not verified: hash-map/shard iteration order, Arc identities as numbers, the shared GR-stale atomic as a "
+               "per-path flag, netlink (requests are observed at the channel; lookup_route answers are not modelled), "
+               "best-path steps not varied by the generator (AS_PATH length, ORIGIN, LLGR, MAC mobility), deferral, prefix limits.",
+    lean_modules=["Rbgp.Fib.Props"],
+    theorems=[
+        "Rbgp.Fib.Props.check_run_ok",
+        "Rbgp.Fib.Props.check_canon_ok",
+        "Rbgp.Fib.Props.fib_eq_ecmp",
+        "Rbgp.Fib.Props.vrf_fib_eq",
+        "Rbgp.Fib.Props.refcount_eq_uses",
+        "Rbgp.Fib.Props.service_refcount_refines",
+        "Rbgp.Fib.Props.service_watched_eq_uses",
+        "Rbgp.Fib.Props.invalid_excluded",
+        "Rbgp.Fib.Props.invalid_flag_eq_report",
+    ],
     harness=dict(kind="daemon", test="event::verif_event::c20::verif_main"),
     profiles=["debug"],
     n_quick=3000, n_thorough=150000, shards=12,
     nontrivial_re=r"\(fib \(|svc-trace",
-    rule="",
-    expect_tokens=[],
-    trusted_base=[],
-    modelled_not_verified=[],
-    assumptions=[],
+    rule="random histories over 2-4 peers (router ids from {1,2,3} with repeats, so ties before and at the router-id step), "
+         "next hops from 3 IPv4 + 2 IPv6 addresses shared between peers, prefixes 2 IPv4 / 1 IPv6 / 3 VPNv4, add-path ids 0-2, "
+         "LOCAL_PREF {50,100,200}, CLUSTER_LIST length {0,1}, route targets from {1,2,3}, 0-3 VRFs (table ids incl. 0 and "
+         "duplicates); ops: insert/replace (biased to used prefixes), local and kernel-source inserts, remove, peer down, GR "
+         "stale + later purge with re-announcement from a new session, soft reset IN, import policy change (rules matching "
+         "any/peer/next hop with set-next-hop/reject/accept), reachability reports; 4% service-loop request sequences, 3% "
+         "malformed cases; non-trivial = at least one FIB request or a service run; distinct = distinct case line",
+    expect_tokens=["(fib (0 0 ", "(fib (0 1 ", "(0 2 ", "(10 0 ", "(11 0 ", "(12 0 ", " ())", "(r 1) (u ", "(u 1) (u 1)",
+                   "(p 100 ", "(p 101 ", " t f ", " f t ", " 200 t ", " 50 t ", " t 1 ", "(1 2)) ", "(2 1)) ", "(1 2 3))",
+                   "(101", "svc-trace", "(emit t f", "bad-case"],
+    trusted_base=["model Rbgp/Fib/Model.lean of daemon/src/table_manager.rs (insert_route, remove_route, unregister_peer, "
+                  "drop_stale_families, soft_reset_in, update_nexthop_validity, nht_register, distribute_update) over a reduced "
+                  "model of table/src/lib.rs (insert, remove, drop, drop_stale, restale, update_nexthop_validity, ecmp_paths) "
+                  "and of kernel/src/lib.rs run_service_loop's watched map",
+                  "harness/daemon/c20.rs: builds Source/attributes/policy objects, reads the request stream through "
+                  "rustybgp_kernel::verif (cfg-guarded), snapshots the RIB through the public query API, sorts requests "
+                  "between different keys; the import policy with a next-hop action is installed directly in "
+                  "TableManager.import_policy (PolicyTable::build_assignment would reject it)",
+                  "service-loop cases need a netlink socket (read-only RTM_GETROUTE by lookup_route)"],
+    modelled_not_verified=["hash-map and shard iteration order (requests of different destinations commute in the replay)",
+                           "Arc pointer identity of Source / attribute vectors (numbers allocated per insertion / session)",
+                           "Source.stale atomic shared by all paths of a session (per-path flag; a marked Source is never "
+                           "re-used for insertion in the generated histories)",
+                           "sort_unstable as a stable insertion sort (std uses insertion sort below 20 elements)",
+                           "netlink side of the kernel service (apply/withdraw execution, lookup_route results)",
+                           "decision steps held constant by the generator: AS_PATH length, ORIGIN, LLGR-stale, EVPN MAC mobility",
+                           "RFC 4724 deferral and per-peer prefix limits (not part of the property's histories)"],
+    assumptions=["each VPN prefix maps to its own VRF-local prefix (two RDs carrying the same IP prefix into one VRF would need "
+                 "a VRF-level best-path selection that the code does not have; such histories are not generated)",
+                 "requests of one history step that concern different FIB cells / different addresses are unordered: both "
+                 "sides print them in a canonical order (check_canon_ok proves the verdict for that form too)"],
 )
 
 V4 = [1, 2]
@@ -124,13 +173,34 @@ def mutate(r, case):
     return case.replace("(nh ", "(nh 200 ", 1)
 
 
+def netlink_ok():
+    """The service-loop cases drive the real run_service_loop, whose lookup_route needs a netlink socket."""
+    try:
+        import socket
+        s = socket.socket(socket.AF_NETLINK, socket.SOCK_RAW, 0)
+        s.bind((0, 0))
+        s.close()
+        return True
+    except Exception:
+        return False
+
+
+SVC_FIXED = [
+    "(svc (r 1) (r 1) (u 1) (r 2) (u 2) (u 2) (r 2) (u 1) (u 1) (r 1))",
+    "(svc (u 3) (r 3) (r 3) (r 3) (u 3))",
+]
+
+
 def gen(seed, n, tier):
     r = Rng(seed * 1000003 + 20)
-    out = []
+    svc = netlink_ok()
+    out = list(SVC_FIXED) if svc else []
     for _ in range(n):
         x = r.below(100)
         if x < 4:
-            out.append(gen_svc(r))
+            c = gen_svc(r)      # drawn in any case so that the other cases do not depend on the probe
+            if svc:
+                out.append(c)
         elif x < 7:
             out.append(mutate(r, gen_case(r)))
         else:
